@@ -81,6 +81,19 @@ RoutedForward(a) == \E b \in Succ(a), i \in 1..Len(held[a]) :
                       /\ outlog' = [outlog EXCEPT ![a] = Append(@, held[a][i].o)]
                       /\ inlog' = [inlog EXCEPT ![b] = Append(@, held[a][i].o)]
                       /\ UNCHANGED <<emitted, info, droplog>>
+\* a lossy wire: the packet handed on overtakes older ones of its flow, which were lost
+DoForwardPastLost(a) ==
+  \E b \in Succ(a), i \in 1..Len(held[a]) :
+    LET o == held[a][i].o  D == OlderOfFlow(a, i) IN
+    /\ ForwardPastLost(a, b, o, held[a][i].fl)
+    /\ outlog' = [outlog EXCEPT ![a] = Append(@, o)]
+    /\ inlog' = [inlog EXCEPT ![b] = Append(@, o)]
+    /\ droplog' = [droplog EXCEPT ![a] = @ \o [k \in 1..Cardinality(D) |->
+                       held[a][CHOOSE j \in D : Cardinality({x \in D : x < j}) = k - 1].o]]
+    /\ UNCHANGED <<emitted, info>>
+DoLoseRest(a) == /\ LoseRest(a)
+                 /\ droplog' = [droplog EXCEPT ![a] = @ \o [k \in 1..Len(held[a]) |-> held[a][k].o]]
+                 /\ UNCHANGED <<emitted, info, inlog, outlog>>
 DoQuiesce == Quiesce /\ UNCHANGED <<emitted, info, inlog, outlog, droplog>>
 
 \* what an element must eventually do with a held packet (it need not ever drop one it may forward)
@@ -90,7 +103,9 @@ StepSplit == \E a \in Els : DoSplitOut(a)
 StepArrivalDrop == \E a \in Els : DoArrivalDrop(a)
 StepLossDrop == \E a \in Els : DoLossDrop(a)
 StepRouteDrop == \E a \in Els : DoRouteDrop(a)
-Next == EnvEmit \/ StepForward \/ StepSplit \/ StepArrivalDrop \/ StepLossDrop \/ StepRouteDrop \/ DoQuiesce
+StepPastLost == \E a \in Els : DoForwardPastLost(a)
+StepLoseRest == \E a \in Els : DoLoseRest(a)
+Next == EnvEmit \/ StepForward \/ StepSplit \/ StepArrivalDrop \/ StepLossDrop \/ StepRouteDrop \/ StepPastLost \/ StepLoseRest \/ DoQuiesce
 Spec == Init /\ [][Next]_vars /\ \A a \in 1..Len(TheCfg.kind) : WF_vars(Progress(a))
 
 Emit1 == (Quiescent /\ ~done /\ Len(emitted) >= 1) =>
